@@ -163,6 +163,117 @@ example : parseTop [7, 8] 3 (.tok 7) .raise = (.raised, ⟨1, 1, 1, .raise⟩) :
 example : parseTop [7, 8] 3 (.tok 7) .ignore = (.ret .truthy, ⟨1, 1, 1, .ignore⟩) := by decide
 
 
+/-! ## deepening: `_match_text_seq`, dispatch-table loops, wrapped lists, the statement dispatcher -/
+
+/-- `_match_text_seq` (advances token by token, retreats when a later text does not match) is Restoring, for every text
+    list, token list and start state -/
+theorem match_text_seq_restores (toks : List Tok) (ts : List Tok) (adv : Bool) (s s' : St) (v : Val)
+    (h : matchTextSeq toks ts adv s = (.ret v, s')) (hv : v.isTruthy = false) : s'.idx = s.idx :=
+  textSeq_restoring toks ts adv s v s' h hv
+
+/-- … and with `advance=False` it never moves the cursor at all -/
+theorem match_text_seq_peek_still (toks : List Tok) (ts : List Tok) (s s' : St) (v : Val)
+    (h : matchTextSeq toks ts false s = (.ret v, s')) : s'.idx = s.idx :=
+  textSeq_still toks ts s v s' h
+
+example : matchTextSeq [5, 6, 7] [5, 6, 8] true ⟨0, 0, 0, .raise⟩ = (.ret .falsy, ⟨0, 3, 0, .raise⟩) := by decide
+example : matchTextSeq [5, 6, 7] [5, 6] true ⟨0, 0, 0, .raise⟩ = (.ret .truthy, ⟨2, 2, 0, .raise⟩) := by decide
+
+/-- a dispatch-table loop (`_parse_range` / RANGE_PARSERS, `_parse_column_ops` / COLUMN_OPERATORS,
+    `_parse_query_modifiers` / QUERY_MODIFIER_PARSERS, …) around ANY table entries that honour the contract `Sound n b`
+    finishes within (r+1)·(b r + 1) steps, provided the caller consumed the key (`consume = true`) or every entry is
+    Consuming (peeking variant).  `Sound` includes "never moves the cursor back", which is what the harness monitors on
+    every real table-entry activation. -/
+theorem table_loop_terminates (toks : List Tok) (keys : List Tok) (consume : Bool) (b : Nat → Nat) (entry : Tok → P)
+    (fuel : Nat) (he : ∀ k, Sound toks.length b (entry k)) (hb : BMono b)
+    (hprog : consume = true ∨ ∀ k, Consuming toks.length (entry k)) (hf : toks.length < fuel)
+    (s : St) (hs : s.idx ≤ toks.length) :
+    (tableLoopS toks keys consume fuel entry s).1 ≠ .diverged ∧ (tableLoopS toks keys consume fuel entry s).1 ≠ .internal ∧
+      (tableLoopS toks keys consume fuel entry s).2.steps
+        ≤ s.steps + (toks.length - s.idx + 1) * (b (toks.length - s.idx) + 1) := by
+  obtain ⟨_, _, c3, c4, c5⟩ := sound_tableLoop (keys := keys) he hb hprog hf s hs
+  exact ⟨c4, c5, c3⟩
+
+example : run [7, 9, 7, 9, 3] 6 (.tableLoop [7] (.tok 9) true) ⟨0, 0, 0, .raise⟩ = (.ret .truthy, ⟨4, 4, 0, .raise⟩) := by
+  decide
+
+/-- the contract is needed — this is the ClickHouse `GLOBAL` regression: a RANGE_PARSERS entry that, when its keyword is
+    not followed by what it expects, retreats to before the keyword and returns its (truthy) left operand makes
+    `_parse_range` re-match the same token for ever, at every error level and without recording any error -/
+theorem table_loop_needs_progress (fuel : Nat) (acc : Val) (st : Nat) (lvl : Level) :
+    (tableLoop [4] [4] true (fun _ s => (.ret .truthy, { s with idx := s.idx - 1 })) fuel acc ⟨0, st, 0, lvl⟩).1
+      = .diverged := by
+  induction fuel generalizing acc st with
+  | zero => rfl
+  | succ fuel ih =>
+    unfold tableLoop
+    simp only [curr, keyOf, bump]
+    exact ih _ _
+
+/-- same for the peeking variant (`_match_set(TABLE, advance=False)`): an entry that reports success without consuming -/
+theorem table_loop_peek_needs_consuming (fuel : Nat) (acc : Val) (s : St) :
+    (tableLoop [4] [4] false (fun _ s => (.ret .truthy, s)) fuel acc { s with idx := 0 }).1 = .diverged := by
+  induction fuel generalizing acc with
+  | zero => rfl
+  | succ fuel ih =>
+    unfold tableLoop
+    simp only [curr, keyOf]
+    exact ih _
+
+/-- `_parse_wrapped_id_vars` / `_parse_wrapped_csv(_parse_id_var)`: well-formed for every identifier token set, hence
+    total, leak-free and linear: at most 2·(r+1) + 2 steps -/
+theorem wrapped_id_vars_terminates (toks : List Tok) (fuel : Nat) (hf : toks.length < fuel) (ids : List Tok)
+    (optional : Bool) (s : St) (hs : s.idx ≤ toks.length) :
+    (run toks fuel (.wrappedIdVars ids optional) s).1 ≠ .diverged ∧
+      (run toks fuel (.wrappedIdVars ids optional) s).1 ≠ .internal ∧
+      (run toks fuel (.wrappedIdVars ids optional) s).2.steps ≤ s.steps + ((toks.length - s.idx + 1) * 2 + 2) := by
+  have hw : (Comb.wrappedIdVars ids optional).wf = true := rfl
+  exact ⟨run_total toks fuel hf _ hw s hs, run_outcome_not_internal toks fuel hf _ hw s hs,
+    run_steps_bound toks fuel hf _ hw s hs⟩
+
+/-- `_parse_wrapped_csv(p)` inherits everything from `p` -/
+theorem wrapped_csv_wf (p : Comb) (sep : Tok) (optional : Bool) : (Comb.wrappedCsv p sep optional).wf = p.wf := rfl
+
+example : run [LP, 3, COMMA, 3, RP] 6 (.wrappedIdVars [3] false) ⟨0, 0, 0, .raise⟩ = (.ret .truthy, ⟨5, 5, 0, .raise⟩) := by
+  decide
+
+/-- the Command fallback (`while self._curr: self._advance()`) consumes the rest of the chunk -/
+theorem command_fallback_consumes_chunk (toks : List Tok) (fuel : Nat) (s : St) (hs : s.idx ≤ toks.length) :
+    (run toks fuel .restOfChunk s).2.idx = toks.length ∧ (run toks fuel .restOfChunk s).1 = .ret .truthy :=
+  restOfChunk_idx toks s hs
+
+/-- `_parse_statement` on a chunk that starts with one of the tokenizer's COMMANDS: whatever follows, the chunk is
+    swallowed, no "Invalid expression / Unexpected token" is recorded and the chunk funnel returns at every level -/
+theorem statement_command_fallback (k : Tok) (rest : List Tok) (fuel : Nat) (sk ck : List Tok) (stmt expr : Comb)
+    (lvl : Level) (h1 : sk.contains k = false) (h2 : ck.contains k = true) :
+    parseTop (k :: rest) fuel (.statement sk stmt ck expr) lvl = (.ret .truthy, ⟨rest.length + 1, rest.length + 1, 0, lvl⟩) := by
+  have h1' : k ∉ sk := by simpa using h1
+  have h2' : k ∈ ck := by simpa using h2
+  cases rest with
+  | nil =>
+    simp [parseTop, Comb.statement, run, ifTokS, inSet, curr, h1', h2', restOfChunk, bump, initSt, leftoverK, checkErrorsK]
+  | cons r rs =>
+    simp [parseTop, Comb.statement, run, ifTokS, inSet, curr, h1', h2', restOfChunk, bump, initSt, leftoverK, checkErrorsK]
+    try omega
+
+/-- `_parse_batch_statements`: with a well-formed statement parser every chunk ends in a value or a ParseError, and the
+    loop runs once per chunk — the batch never diverges and never leaks -/
+theorem parse_batch_terminates (fuel : Nat) (p : Comb) (hw : p.wf = true) (lvl : Level) (chunks : List (List Tok))
+    (hf : ∀ c ∈ chunks, c.length < fuel) (n : Nat) :
+    (parseBatch fuel p lvl chunks n).1 ≠ .diverged ∧ (parseBatch fuel p lvl chunks n).1 ≠ .internal := by
+  induction chunks generalizing n with
+  | nil => simp [parseBatch]
+  | cons c cs ih =>
+    have hc := hf c (List.mem_cons_self ..)
+    have hcs : ∀ c' ∈ cs, c'.length < fuel := fun c' h => hf c' (List.mem_cons_of_mem _ h)
+    unfold parseBatch
+    rcases parse_top_outcome c fuel hc p hw lvl with ⟨v, s, h⟩ | ⟨s, h⟩
+    · rw [h]; exact ih hcs _
+    · rw [h]; simp
+
+example : parseBatch 4 (.statement [5] (.tok 3) [8] (.tok 3)) .raise [[5, 3], [8, 1, 1], [3]] 0 = (.ret .truthy, 6) := by
+  decide
+
 /-! ## tokenizer: `_scan` makes progress although sub-scanners rewind -/
 
 namespace Scan
@@ -215,6 +326,29 @@ example : rel (heredocMoves 4 5 true) 0 = some 0 := by decide
     tokenizer `_current` would fall back to text the loop already left: no progress) -/
 theorem rewind_needs_discipline : stepIter 4 ⟨0, [.fwd 2, .back 3]⟩ = none ∧ rel (heredocMoves 2 4 false) 0 = none := by
   decide
+
+/-- `lex_progress`: whatever the characters make the sub-scanners do (any function from `_current` to an iteration), the
+    `_scan` loop never needs more than `size - current` iterations: with that much fuel it is never still running,
+    and when it stops normally `_current ≥ size` -/
+theorem lex_progress (size : Nat) (iterAt : Nat → Iter) (c : Nat) :
+    scanRun size (fun c => stepIter c (iterAt c)) (size - c) c 0 ≠ .outOfFuel ∧
+      ∀ c' n', scanRun size (fun c => stepIter c (iterAt c)) (size - c) c 0 = .done c' n' → size ≤ c' ∧ n' ≤ size - c := by
+  have hp : ∀ c c', (fun c => stepIter c (iterAt c)) c = some c' → c < c' := fun c c' h => stepIter_gt h
+  obtain ⟨h1, h2⟩ := scanRun_spec size _ hp (size - c) c 0 (Nat.le_refl _)
+  refine ⟨h1, ?_⟩
+  intro c' n' h
+  have := h2 c' n' h
+  omega
+
+example : scanRun 6 (fun c => stepIter c ⟨0, [.fwd 1]⟩) 6 0 0 = .done 6 3 := by decide
+
+/-- sub-scanners that only move forward (`_scan_var`, `_scan_comment`, `_scan_identifier`, `_extract_string`, the digit
+    runs of `_scan_number`) are always disciplined -/
+theorem forward_only_disciplined (blanks : Nat) (ms : List Move) (h : ms.all Move.isFwd = true) (c : Nat) :
+    ∃ c', stepIter c ⟨blanks, ms⟩ = some c' ∧ c < c' := by
+  obtain ⟨a, h1, _⟩ := rel_all_fwd ms 0 h
+  have : stepIter c ⟨blanks, ms⟩ = some (c + (Iter.offset ⟨blanks, ms⟩) + a) := by simp [stepIter, h1]
+  exact ⟨_, this, stepIter_gt this⟩
 
 /-! ### structural facts re-extracted from sqlglot/tokenizer_core.py and sqlglot/parser.py on every run
     (finite tables, decided completely) -/
